@@ -64,6 +64,10 @@ class SwitchWriteHandler(AbstractWriteHandler):
         m = op.get_marker()
         assert isinstance(m, SwitchStart)
         self.decompiler.source_map_add_opcode(op.offset)
+        for param in op.root.params:
+            # (strings are printed with the indent that is stored in them)
+            if hasattr(param, "indent"):
+                param.indent = self.decompiler.indent
         self.decompiler.write_stmnt(f"switch ( {self._switch_header_for(op.root)} )")
         is_switch_dungeon_mode = op.root.op_code.name == OP_SWITCH_DUNGEON_MODE
 
@@ -199,6 +203,8 @@ class SwitchWriteHandler(AbstractWriteHandler):
                 op.params[0].indent = self.decompiler.indent
             return f"menu({op.params[0]})"
         if op.op_code.name == "CaseMenu2":
+            if hasattr(op.params[0], "indent"):
+                op.params[0].indent = self.decompiler.indent
             return f"menu2({op.params[0]})"
         if op.op_code.name == "CaseScenario":
             # TODO: This will convert them into CaseValues. Might cause issues.
